@@ -494,6 +494,9 @@ def term_formula(p):
                 return f_and(term_formula(Poly(dict(a0[2]))), term_formula(Poly(dict(a0[3]))))
             if a0[1] == '||':
                 return f_or(term_formula(Poly(dict(a0[2]))), term_formula(Poly(dict(a0[3]))))
+        if a0[0] == 'cond':
+            c = term_formula(Poly(dict(a0[1])))
+            return f_or(f_and(c, term_formula(Poly(dict(a0[2])))), f_and(f_not(c), term_formula(Poly(dict(a0[3])))))
     return ('bool', p.key())
 
 
@@ -766,6 +769,37 @@ class SymExec:
         return None
 
     def _stmt(self, s, states, summary, depth):
+        """statement-level inlining: `x = helper(...)` / `return helper(...)` where the helper (accepted by self.inliner) has
+        several guarded results forks the state once per result; everything else goes to _stmt0."""
+        k, a = s.k, s.a
+        if self.inliner is not None and k in ('decl', 'assign', 'return') and self._inline_depth < 3 and (k != 'assign' or a[2] == '='):
+            from .ir import S as _S
+            val = a[2] if k == 'decl' else a[1] if k == 'assign' else a[0]
+            call = val
+            while call is not None and call.k == 'cast':
+                call = call.a[2]
+            if call is not None and call.k == 'call' and self.inliner(call.a[0], len(call.a[2])) is not None:
+                out = []
+                forked = False
+                for st in states:
+                    paths = self.canon(st.env)._inline_paths(call)
+                    if paths is None or len(paths) < 2:
+                        out.extend(self._stmt0(s, [st], summary, depth))
+                        continue
+                    forked = True
+                    for i, (g, r) in enumerate(paths):
+                        st2 = st.fork(g)
+                        if st2.guard == ('false',):
+                            continue
+                        tmp = '\x00inl:%s:%d' % (s.loc, i)
+                        st2.env[tmp] = r
+                        v2 = E('var', tmp, loc=s.loc)
+                        s2 = _S('decl', a[0], a[1], v2, loc=s.loc) if k == 'decl' else _S('assign', a[0], v2, '=', loc=s.loc) if k == 'assign' else _S('return', v2, loc=s.loc)
+                        out.extend(self._stmt0(s2, [st2], summary, depth))
+                return out
+        return self._stmt0(s, states, summary, depth)
+
+    def _stmt0(self, s, states, summary, depth):
         k, a = s.k, s.a
         out = []
         if self.split_cond and k in ('decl', 'assign', 'return'):
@@ -954,9 +988,9 @@ class _InliningCanon(Canon):
         self.sx = sx
         self.this_path = getattr(sx, '_this_path', None)
 
-    def _inline(self, e):
-        """value of a call to a small pure function, obtained by summarising its body in place: one return path, no
-        effects, by-value parameters; the receiver's fields are read through the receiver's own path"""
+    def _inline_paths(self, e):
+        """guarded values [(guard, value)] of a call to a small pure function, obtained by summarising its body in place:
+        return paths without effects, by-value parameters; the receiver's fields are read through the receiver's own path"""
         sx = self.sx
         f = sx.inliner(e.a[0], len(e.a[2]))
         if f is None or sx._inline_depth >= 3:
@@ -987,16 +1021,22 @@ class _InliningCanon(Canon):
             summ = sub.run(e.a[0], f.body, env)
         except AnalysisError:
             return None
-        if not summ.paths or any(kind != 'return' or res is None or eff for _g, kind, res, eff in summ.paths):
+        # a path that raises is kept out: the caller then has no result for that guard (as in the callee)
+        rets = [(g, kind, res, eff) for g, kind, res, eff in summ.paths if kind != 'raise']
+        if not rets or any(kind != 'return' or res is None or eff for _g, kind, res, eff in rets) or len(rets) > 8:
             return None
-        if len(summ.paths) == 1:
-            return Poly(dict(summ.paths[0][2])) if summ.paths[0][0] == ('true',) else None
-        if len(summ.paths) > 8:
+        return [(g, Poly(dict(res))) for g, _k, res, _e in rets]
+
+    def _inline(self, e):
+        paths = self._inline_paths(e)
+        if paths is None:
             return None
+        if len(paths) == 1:
+            return paths[0][1] if paths[0][0] == ('true',) else None
         # several guarded results: one conditional term  g1 ? r1 : (g2 ? r2 : ... rn)
-        out = Poly(dict(summ.paths[-1][2]))
-        for g, _k, res, _e in reversed(summ.paths[:-1]):
-            out = Poly.atom(('cond', formula_poly(g).key(), res, out.key()))
+        out = paths[-1][1]
+        for g, res in reversed(paths[:-1]):
+            out = Poly.atom(('cond', formula_poly(g).key(), res.key(), out.key()))
         return out
 
     def __call__(self, e):
